@@ -2,7 +2,6 @@ package c28
 
 import (
 	"fmt"
-	"os"
 	"sort"
 	"strings"
 	"testing"
@@ -282,11 +281,13 @@ func wExec(c *wlru.Cache, in wIn, cb *[]string) wOut {
 	return out
 }
 
-func genWIn(t *rapid.T, vid *int) wIn {
+// weighted choice: mutators and the compound operations more often than plain accessors
+var wOps = []int{wAdd, wAdd, wAdd, wGet, wGet, wContains, wPeek, wContainsOrAdd, wContainsOrAdd,
+	wPeekOrAdd, wPeekOrAdd, wRemove, wResize, wRemoveOldest, wGetOldest, wKeysOp, wKeysOp, wLen, wWeight, wTotal, wPurge}
+
+func genWIn(t *rapid.T, vid *int, focus []int) wIn {
 	in := wIn{}
-	// weighted choice: mutators and the compound operations more often than plain accessors
-	in.Op = rapid.SampledFrom([]int{wAdd, wAdd, wAdd, wGet, wGet, wContains, wPeek, wContainsOrAdd, wContainsOrAdd,
-		wPeekOrAdd, wPeekOrAdd, wRemove, wResize, wRemoveOldest, wGetOldest, wKeysOp, wKeysOp, wLen, wWeight, wTotal, wPurge}).Draw(t, "op")
+	in.Op = pickOp(t, wOps, focus)
 	switch in.Op {
 	case wAdd, wContainsOrAdd, wPeekOrAdd:
 		in.K = rapid.IntRange(0, wKeys-1).Draw(t, "k")
@@ -318,11 +319,12 @@ func TestC28Wlru(t *testing.T) {
 		}
 		lens, maxprocs := drawShape(t, 40)
 		perts := drawPerts(t, lens)
+		focus := drawFocus(t, wOps)
 		progs := make([][]wIn, len(lens))
 		descr := make([][]string, len(lens))
 		for g := range progs {
 			for i := 0; i < lens[g]; i++ {
-				in := genWIn(t, &vid)
+				in := genWIn(t, &vid, focus)
 				progs[g] = append(progs[g], in)
 				descr[g] = append(descr[g], perts[g][i].String()+" "+in.String())
 			}
@@ -402,9 +404,6 @@ func TestC28Wlru(t *testing.T) {
 		checkLin(t, stWlru, model, ops, describe)
 
 		nt, nov := analyse(stWlru, "wlru", hops)
-		if os.Getenv("C28_DEBUG") != "" {
-			fmt.Println(describe())
-		}
 		cls := []string{fmt.Sprintf("goroutines_%d", len(lens)), fmt.Sprintf("gomaxprocs_%d", maxprocs)}
 		if nt {
 			cls = append(cls, "overlapping", fmt.Sprintf("overlapping_mp%d", maxprocs))
